@@ -429,10 +429,24 @@ def bounded(tier, seed, R):
                             post_arith_native(a, op, b, r) and post_concat(None, a, op, b, r) and
                             post_compare(None, a, op, b, r))
                 R.guard('build_operator_operand_fixup.fixup/post', chk, w)
-    vals = [v for v in POOL if not is_err(v) and not is_blank(v)]
     import itertools
     import random
     rnd = random.Random(seed)
+    # one closure used for many applications, as a compiled formula uses it: what it answers must not depend on what
+    # it was asked before (an implementation that remembers results must not take TRUE for 1, 1 for 1.0, FALSE for 0)
+    from pycel.excelutil import build_operator_operand_fixup
+    twins = [True, 1, 1.0, False, 0, 0.0, '1', '0', 'TRUE', None, '', 2, 2.0, 'a', 'A']
+    apps = [(a, op, b) for a in twins for b in twins for op in ('Eq', 'Lt', 'Add', 'Mult', 'BitAnd', 'Div')]
+    for rep in range(3 if tier != 'thorough' else 30):
+        rnd.shuffle(apps)
+        shared = build_operator_operand_fixup(lambda *a_: None)
+        for a, op, b in apps:
+            def chk():
+                got = shared(a, op, b)
+                want = call(None, a, op, b)
+                return type(got) is type(want) and (got == want or (got != got and want != want))
+            R.guard('bounded/fixup_is_a_function_of_its_operands', chk, {'left': a, 'op': op, 'right': b, 'round': rep})
+    vals = [v for v in POOL if not is_err(v) and not is_blank(v)]
     triples = list(itertools.product(vals, repeat=3))
     if tier != 'thorough':
         triples = rnd.sample(triples, 6000)
